@@ -3,7 +3,7 @@
    toffoli_gate / t_inverse / parity_meas / set_qubit_state on recording qubits. *)
 From Coq Require Import ZArith List Bool Ring_theory.
 From NQ Require Import Base.Cyclo Base.QMat Toolbox.ToolboxSem
-     Proofs.QMatProofs Proofs.ToolboxProofs Proofs.CycloProofs.
+     Proofs.QMatProofs Proofs.ToolboxProofs Proofs.CycloProofs Proofs.QMatLift.
 From Gen Require Import Gen_Toolbox.
 Import ListNotations.
 
@@ -62,6 +62,21 @@ Qed.
 Theorem C20_eval_hom : eval_hom_statement.
 Proof. exact eval_hom. Qed.
 
+(* the Toffoli identity as an operator identity in every such ring (circuit
+   computed in R from the ring images of H, T, CNOT) *)
+Theorem C20_toffoli_in_every_ring :
+  forall (R : Type) (rO rI : R) (radd rmul rsub : R -> R -> R) (ropp : R -> R)
+         (Rth : ring_theory rO rI radd rmul rsub ropp (@eq R)) (omega half : R),
+    opow R rI rmul omega 32 = ropp rI -> rmul (radd rI rI) half = rI ->
+    exists p, (p < 64)%nat /      rcircuit R rO rI radd rmul ropp omega half 3 gen_toffoli =
+        Some (rmscale R rmul (opow R rI rmul omega p)
+                      (map (map (keval R rO rI radd rmul ropp omega half)) gTOFFOLI)).
+Proof.
+  intros R rO rI radd rmul rsub ropp Rth omega half H32 H2.
+  destruct C20_toffoli_ok as [U [Hc Hp]].
+  exact (circuit_lift_all R rO rI radd rmul rsub ropp Rth omega half H32 H2 3%nat gen_toffoli U gTOFFOLI Hc Hp).
+Qed.
+
 (* non-vacuity: the hypotheses of state_prep hold in K32 itself at theta = pi/4,
    phi = pi/8 (cos/sin of pi/8 and e^{i pi/16} are ring elements), and a
    three-qubit string with an ancilla is among the parity rows *)
@@ -79,3 +94,4 @@ Print Assumptions C20_parity_meas_ok.
 Print Assumptions C20_parity_complete.
 Print Assumptions C20_state_prep_ok.
 Print Assumptions C20_eval_hom.
+Print Assumptions C20_toffoli_in_every_ring.
